@@ -287,8 +287,9 @@ def run(ctx, replay=None):
     ctx.log('M judged')
     # ------------------------------------------------- T: parameter sweeps, origins from the real reset functions
     sweep = []
-    for sh in ([(5, 7), (7, 5), (6, 9)] if ctx.quick else [(5, 7), (7, 5), (6, 9), (9, 6), (5, 13), (8, 8), (10, 7)]):
-        for layout in [(1, 2), (2, 1), (1, 3), (3, 1), (2, 2), (2, 3), (1, 1)]:
+    # (8, 8), (11, 8), (9, 9)/(3, 3): rooms of unequal sizes ((size - 1) % layout != 0) on both axes
+    for sh in ([(5, 7), (7, 5), (6, 9), (8, 8)] if ctx.quick else [(5, 7), (7, 5), (6, 9), (9, 6), (5, 13), (8, 8), (10, 7), (11, 8), (9, 9)]):
+        for layout in [(1, 2), (2, 1), (1, 3), (3, 1), (2, 2), (2, 3), (1, 1)] + ([(3, 3), (3, 2)] if sh[0] >= 8 else []):
             sweep.append(('rooms', {'shape': list(sh), 'layout': list(layout)}, BASIC, TERM_EXIT))
             sweep.append(('memory_rooms', {'shape': list(sh), 'layout': list(layout), 'colors': ALLC, 'num_beacons': 1, 'num_exits': 2}, BASIC, TERM_EXIT))
     for sh in [(5, 5), (5, 9), (9, 5), (7, 7), (9, 9)] + ([] if ctx.quick else [(11, 7), (7, 13), (13, 13)]):
@@ -305,7 +306,8 @@ def run(ctx, replay=None):
     nsw = 8 if ctx.quick else 60
     for si, (f, p, comps, term) in enumerate(sweep):
         origins, seen = [], set()
-        for sd in range(nsw):
+        # room layouts: passages are drawn per wall segment, a rare draw matters: many more seeds (the search is cheap there)
+        for sd in range(nsw * 6 if f in ('rooms', 'memory_rooms') else nsw):
             outcome, st = resets.call_reset(f, p, np.random.default_rng(ctx.seed * 7919 + si * 131 + sd))
             if outcome != 'ok':
                 break
